@@ -241,6 +241,16 @@ func (e oneWayCannotReturnError) Error() string {
 	)
 }
 
+// serviceCycleError is raised when a service inherits from itself, directly
+// or through other services.
+type serviceCycleError struct {
+	Name string
+}
+
+func (e serviceCycleError) Error() string {
+	return fmt.Sprintf("service %q inherits from itself", e.Name)
+}
+
 type notAnExceptionError struct {
 	TypeName  string
 	FieldName string
